@@ -29,7 +29,7 @@ PROPS = {
                        "equals the spec value, borrowed str/bytes point into the input).",
         "not_decided": ["recursive / deeply nested schemas end-to-end (covered by induction over the per-kind contracts, not executed)",
                         "name-directed union selection, enum by symbol name, records by field name (HashMap, A2)",
-                        "decimals with non-zero scale and str/f64 presentations (rust_decimal, A3); decimal decode (read_decimal) not tractable under CBMC"],
+                        "decimals with non-zero scale and str/f64 presentations (rust_decimal, A3); decimal decode (read_decimal) only on the integer-hinted scale-0 path (C03)"],
     },
     "C02": {
         "verus": ["union_priority"],
@@ -63,9 +63,9 @@ PROPS = {
         "level_note": "UTF-8 validation delegates to core::str::from_utf8 (trusted std, A1); lengths of strings/arrays in end-to-end harnesses bounded and labelled; A4 A6 A8.",
         "assumptions": [A1, A3, A4, A6, A7, A8],
         "explanation": "Functions under contract: SliceRead::read_varint/read_slice/read_const_size_buf, read_bool, read_len/read_length_delimited, read_discriminant, "
-                       "read_enum_as_str, read_union_discriminant, deserialize_option, read_block_len, BlockReader::has_more, ArraySeqAccess.",
+                       "read_enum_as_str, read_union_discriminant, deserialize_option, read_block_len, BlockReader::has_more, ArraySeqAccess, read_decimal (integer-hinted scale-0 path; rust_decimal entry shut by a frame obligation).",
         "not_decided": ["over-long (non-minimal) varints are accepted for in-range values: the property's list of invalid inputs does not include them",
-                        "decimal decode (read_decimal) only for the integer-hinted scale-0 path; rust_decimal formatting is trusted (A3)"],
+                        "decimal decode (read_decimal): discharged only on the integer-hinted scale-0 path for fixed(0|1|16|17) and the empty / negative-length bytes payload; bytes payloads of 1..=16 do not finish; rust_decimal conversion and formatting are trusted (A3)"],
     },
     "C04": {
         "level": "proof",
@@ -165,17 +165,20 @@ PROPS = {
         "kani_args": ["CBMC:--unwindset", "CBMC:memcmp.0:18"],
         "level": "other",
         "design_ref": "DESIGN.md §3 C17",
-        "technique": "Kani contract harnesses on the container Reader's state machine put directly into a given state (Broken / EOF latch / NotInBlock), plus the Take sub-reader contracts (null codec)",
-        "level_text": "Deductive check of the functions under contract only (not the whole property): the Broken state and the EOF latch of deserialize_seed_next are complete over the state enum "
-                      "(Broken => Err once, then end of stream; latch => end of stream without reading); the slice Take contract (block larger than input => Err, sub-reader limited to the block size, "
-                      "leftover data rejected, resume exactly after the block) is complete for inputs up to 6 bytes and any block size; the same contract for the streamed reader (io::Take) for inputs "
-                      "up to 5 bytes and every refill size.",
-        "level_note": "Null codec only; compressed codecs and the snappy CRC are external (C05); the reader is constructed past the file header (header parsing is serde_json, out of reach). "
-                      "Whole-file harnesses (every truncation offset, sync/size/count corruption through deserialize_next) do not finish under CBMC and are kept in the attic: NOT decided. A1 A4 A8 A9.",
+        "technique": "one contract per transition of the container Reader's state machine (Kani), each from a state written in place, datum decoder abstracted by a seed that ignores its deserializer; Broken / end-of-stream latch contracts; Take sub-reader contracts (null codec)",
+        "level_text": "Deductive per-transition contracts (not a whole-file proof): from NotInBlock over every body of 0..=3 bytes and every sync marker - empty => end of stream, non-empty => never a silent end of stream, "
+                      "EVERY error (cut inside the count varint, inside the size varint, negative count/size, declared size larger than the input) sets the end-of-stream latch; InBlock with objects left => one value per call, "
+                      "count - 1, nothing proportional to a hostile declared count; leaving a block over all 16 trailing bytes x all header markers - unconsumed block data => Err, marker differing from the header's => Err, both latched, "
+                      "matching marker exactly after the declared size and exhausted input => clean end of stream; Broken => Err once then latch; latch => end of stream forever without reading; slice Take contract for inputs up to 6 bytes "
+                      "and any block size, streamed io::Take variant up to 5 bytes and every refill size.",
+        "level_note": "Null codec only (the deflate arm is shut by two frame obligations: inflate state never constructed, inflate never entered); compressed codecs and the snappy CRC are external (C05); the reader is constructed past the "
+                      "file header (header parsing is serde_json, out of reach). The datum decoder inside a block is abstracted (its contracts are C03): payload consumption is represented by the consumed/unconsumed parameter of the "
+                      "leave-block steps. The composition of the transitions over a whole damaged file (prefix-only) is argued in DESIGN.md, not machine-checked; the whole-file harnesses do not finish (attic). A1 A4 A8 A9.",
         "assumptions": [A1, A4, A6, A7, A8, A9],
-        "explanation": "Harnesses: c17_broken_and_eof_latches, c17_slice_take_contract, c17_reader_take_contract; the step contracts say what each transition guarantees, their composition over a "
-                       "whole damaged file is not machine-checked.",
-        "not_decided": ["truncation at every byte offset of a file, end-to-end (attic: does not finish)", "sync marker / declared size / object count corruption through deserialize_next (attic)",
+        "explanation": "Harnesses: c17_not_in_block_step, c17_in_block_value_step_{last,max}, c17_leave_block_step_{empty_block,consumed_block,data_left}, c17_broken_and_eof_latches, c17_slice_take_contract, "
+                       "c17_reader_take_contract. Every framing error path of deserialize_next_inner ends in a state where the latch is set; the latch contract then gives 'reported once, then end of stream'.",
+        "not_decided": ["whole damaged files end-to-end (every truncation offset through successive calls): attic, does not finish; covered per transition",
+                        "a declared object count larger than the block's contents (needs the real datum decoder inside the step)",
                         "compressed codecs, snappy CRC32 (external libraries)", "I/O errors injected at every read call of a streaming reader"],
     },
     "C18": {
